@@ -334,7 +334,7 @@ def run(ctx: Ctx) -> None:
     # 2 + 3. real code
     logdir = tempfile.mkdtemp(prefix="pfverif_c05root_")
     try:
-        scen_names = ["partial", "multi"] if quick else ["partial", "multi", "chain", "gen", "twogen"]
+        scen_names = ["reduce", "multi"] if quick else ["reduce", "partial", "multi", "chain", "gen", "twogen"]
         storages = ["file_array", "dict"] if quick else ["file_array", "dict", "shared_memory_dict"]
         hist: list[dict] = []
         opsof: list[list] = []
